@@ -243,6 +243,8 @@ func init() {
 
 	issue.Hard(OverrideOfFinal, `%{member} attempts to override final %{label}`)
 
+	issue.Hard(OverrideTypeMismatch, `%{member} attempts to override %{label} with a type that does not match`)
+
 	issue.Hard(ParseError, `Unable to parse %{language}. Detail: %{detail}`)
 
 	issue.Hard(SerializationAttributeNotFound, `%{label} serialization is referencing non existent attribute '%{attribute}'`)
